@@ -100,7 +100,8 @@ def h_to_ref(ctx):
     zipv = ctx.deviate("zip", [None, "DEF"])
     aad = ctx.deviate("aad", [None, b"aad!", b"a", b"abc", b""]) if form != "compact" else None
     apuv = ctx.deviate("apu/apv", [None, ("QWxpY2U", "Qm9i")]) if alg.startswith("ECDH") else None
-    own_p2 = ctx.deviate("caller_p2s_p2c", [False, 1000, 999, 8]) if alg.startswith("PBES2") else False
+    # a count of another JSON type than an integer (true, 2048.0, "2048") may be refused; if a token comes out, a peer must be able to read it
+    own_p2 = ctx.deviate("caller_p2s_p2c", [False, 1000, 999, 8, True, 2048.0, "2048"]) if alg.startswith("PBES2") else False
     pname, plaintext = ctx.deviate("plaintext", c04.plaintexts())
     jwk = scen.key(kind)
     sender_jwk = scen.key(kind, 1) if is_1pu else None
@@ -118,6 +119,8 @@ def h_to_ref(ctx):
     tag = f"{fam} {ENC[enc][0]} {form}"
     ctxs = f"alg={alg} key={kind} enc={enc} zip={zipv} aad={aad} apu/apv={apuv} caller_p2={own_p2} plaintext={pname}"
     r = scen.jwe_encrypt(form, prot, plaintext, pub, [alg, enc, "DEF"], aad=aad, sender_key=sender_priv)
+    if not r.ok and own_p2 and type(own_p2) is not int:
+        return Outcome("odd-count-refused", [], nontrivial=("lib->ref", alg, kind, enc, form, repr(own_p2)))
     if not r.ok:
         return Outcome("encrypt-failed", [viol(f"encryption fails: {tag}", f"{ctxs}: {r.exc!r}")], nontrivial=("lib->ref", alg, kind, enc, form))
     vs = []
